@@ -32,10 +32,12 @@ Probe ==
             /\ Ev.count = 1            \* ... and it is the only entry of the client's index (no entry left under a former id)
        ELSE Ev.notified /\ ~Ev.indexed /\ Ev.count = 0)
   /\ UNCHANGED fired /\ Step
+\* a call or a wait that did not come to an end is a matter of C13 only (the same traces also serve C09's hook rule)
+Hang == (Is("CallHang") \/ Is("WaitHang") \/ Is("LossUndetected")) /\ Prop # "C13" /\ Prop # "ALL" /\ UNCHANGED fired /\ Step
 DialDone == Is("DialDone") /\ Ev.ok /\ UNCHANGED fired /\ Step
 Known == {"Reset", "Hook", "CallDone", "Probe", "DialDone", "CallHang", "WaitHang", "LossUndetected"}
 Skip == l <= N /\ Ev.ev \notin Known /\ UNCHANGED fired /\ Step
-Next == Reset \/ Hook \/ CallDone \/ Probe \/ DialDone \/ Skip
+Next == Reset \/ Hook \/ CallDone \/ Probe \/ DialDone \/ Hang \/ Skip
 Spec == Init /\ [][Next]_<<l, fired>>
 Accepted == PrintT(<<"HWM", TLCGet(1), N>>) /\ TRUE
 =============================================================================
